@@ -12,6 +12,7 @@ import (
 	"strings"
 
 	"github.com/LindsayBradford/crem/internal/pkg/annealing/solution"
+	solcsv "github.com/LindsayBradford/crem/internal/pkg/annealing/solution/encoding/csv"
 	"github.com/LindsayBradford/crem/internal/pkg/model"
 	"github.com/LindsayBradford/crem/internal/pkg/model/archive"
 	"github.com/LindsayBradford/crem/internal/pkg/model/models/catchment"
@@ -22,6 +23,16 @@ func init() {
 	register("C02", func(a []string) { runTx("C02", a) })
 	register("C10", func(a []string) { runTx("C10", a) })
 	register("C11", func(a []string) { runTx("C11", a) })
+}
+
+// data set name -> path of its meta file ("PERMUTED:<path>" = the row-permuted variant in a temp directory)
+var txPermutedPath string
+
+func txPath(ds string) string {
+	if ds == "PERMUTED" {
+		return txPermutedPath
+	}
+	return catchTestdata(ds)
 }
 
 func txBits(p *prng, n int, density float64) []int {
@@ -99,6 +110,34 @@ func txAggregateOracle(c *catchInst, ds string, bits []int, where string, fails 
 			bad = "solution figures of " + dv.Name + " inconsistent (value vs per-unit sum vs model)"
 		}
 	}
+	// the detail-level solution file as the CSV marshaller writes it: "Name, Value, UnitOfMeasure, <unit columns>"
+	if text, err := new(solcsv.DecisionVariableMarshaler).Marshal(sol); err == nil {
+		for li, line := range strings.Split(strings.TrimSpace(string(text)), "\n") {
+			if li == 0 {
+				continue
+			}
+			f := strings.Split(line, ", ")
+			k := -1
+			for i, n := range catchVarNames {
+				if n == f[0] {
+					k = i
+				}
+			}
+			if k < 0 || len(f) != 3+len(c.pus) {
+				bad = "CSV solution file row not understood: " + line
+				continue
+			}
+			val, _ := strconv.ParseFloat(f[1], 64)
+			var s int64
+			for _, cell := range f[3:] {
+				v, _ := strconv.ParseFloat(cell, 64)
+				s += c.grid(v, catchVarScale[k])
+			}
+			if s != c.grid(val, catchVarScale[k]) || c.grid(val, catchVarScale[k]) != totals[k] {
+				bad = "CSV solution file: " + f[0] + " value differs from the sum of its planning-unit columns (or from the model)"
+			}
+		}
+	}
 	if bad != "" {
 		*fails++
 		if *fails <= 5 {
@@ -113,7 +152,10 @@ func runTx(prop string, args []string) {
 		tier = args[0]
 	}
 	p := newPrng(202)
-	datasets := []string{"ValidModel.csv", "TestingModel.csv"}
+	permPath, permCleanup := catchPermutedDataset()
+	defer permCleanup()
+	txPermutedPath = permPath
+	datasets := []string{"ValidModel.csv", "TestingModel.csv", "PERMUTED"}
 	stats := map[string]int{}
 	fails := 0
 	states := 12
@@ -121,7 +163,7 @@ func runTx(prop string, args []string) {
 		states = 60
 	}
 	for _, ds := range datasets {
-		base := catchOpen(catchTestdata(ds), nil)
+		base := catchOpen(txPath(ds), nil)
 		emit(base.export(ds))
 		emit(J{"kind": "init", "dataset": ds, "obs": base.obs()})
 		n := base.nact
@@ -138,7 +180,7 @@ func runTx(prop string, args []string) {
 					var limMax float64
 					if prop == "C10" {
 						// probe instance without limit: current and prospective totals of the chosen variable
-						probe := catchOpen(catchTestdata(ds), nil)
+						probe := catchOpen(txPath(ds), nil)
 						probe.apply(catchOp{Op: "SYNC", Bits: bits})
 						limVar = p.intn(6)
 						cur := probe.perUnit(catchVarNames[limVar]).Value()
@@ -169,7 +211,7 @@ func runTx(prop string, args []string) {
 						prm = parameters.Map{catchLimitKeys[limVar]: limMax}
 						limit = J{"var": limVar, "max": flOf(limMax)}
 					}
-					c := catchOpen(catchTestdata(ds), prm)
+					c := catchOpen(txPath(ds), prm)
 					// the instance may already have a life behind it: it judged a change and was re-initialised, or it
 					// is a clone of a used instance (what explorers, saver and engine do); the property quantifies over
 					// all reachable states, and a fresh build must not be the only one exercised
